@@ -123,6 +123,16 @@ func init() {
 		Decides:    "unit consistency of the string implementation: in value/string.go, value/char.go and the native String methods, no comparison or addition/subtraction mixes a byte quantity (len, ByteCount), a code-point quantity (RuneCount, CharCount, Length) and a grapheme quantity (uniseg counts, GraphemeCount), given the documented unit of each index/length parameter.",
 		NotCovered: "case mapping, comparison, grapheme segmentation, slicing and searching results: they depend on string contents and on the Unicode tables of the Go library, not on the shape of the code.",
 	}
+	props["C21"] = &PropSpec{
+		Rules:      []string{"reflags/rw"},
+		Decides:    "one clause only, the flags: each of the six regex flags has one letter, and that letter maps to that flag along every chain that spells it (flag table, Elk lexer -> flag token -> Elk parser, regex parser's scoped groups), and exactly the flags i, m, s, U - whose meaning in Go's RE2 equals the Elk meaning - are passed through to Go's engine. If these disagree, every literal or composed regex using the flag compiles to a pattern with another meaning.",
+		NotCovered: "everything else: equivalence of the language of the Elk pattern and of the emitted RE2 text (character classes, escapes, quantifiers, extended-mode whitespace and comments) quantifies over subject strings and is not decided here.",
+	}
+	props["C30"] = &PropSpec{
+		Rules:      []string{"ops/token-family"},
+		Decides:    "one clause only, the comparison operators of relational and literal patterns: the opcode the compiler hands to the pattern helpers under `case token.T` (== != =~ !~ === !== < <= > >=) belongs to the family the compiler's own operator table assigns to T in expressions, so `case < 5` tests what `x < 5` tests.",
+		NotCovered: "first-match order, binding of nested parts, exhaustiveness, and every other pattern form: relations between compiled code and a reference matcher over all values.",
+	}
 	props["C25"] = &PropSpec{
 		Rules:      []string{"effect/mayfatal-unlock", "path/recoverguard", "path/ctx-blocking"},
 		Decides:    "the `errors rather than crashes` half of the property: (1) no unlock of a sync mutex driven by the program can reach the Go runtime's unrecoverable fatal error (every unpaired Unlock/RUnlock is dominated by a test of state the wrapper tracks); (2) every send, close, reflect.Select and wait-group decrement on an object the program holds is either under a deferred recover() or guarded by a tracked counter; (3) the context-aware channel operations are arms of a select that also watches the context.",
